@@ -112,7 +112,8 @@ func encodeProcessorOptions(opt *ProcessorOptions) *internal.ProcessorOptions {
 	}
 
 	// Fill value can only be a number. Set it if available.
-	if v, ok := opt.FillValue.(float64); ok {
+	// fill(5) gives an int64, fill(5.0) a float64; the operators that fill read either as a number.
+	if v, ok := hybridqp.TransToFloat(opt.FillValue); ok {
 		pb.FillValue = v
 	}
 
